@@ -2,7 +2,7 @@
 import ast
 import z3
 from .engine import (I, R, B, A1, A2, CPLX, cmul, fresh, OutOfFragment, ContractError, MissingSnapshot, UnknownName, AV, Ref, View, IdxList,
-                     Gather, ArrCmp, ListObj, Obj, Unbound, PyConst, State, VC, SpecEval, elem_sort, arr_sort,
+                     Gather, ArrCmp, ListObj, Obj, Unbound, PyConst, SymSeq, State, VC, SpecEval, elem_sort, arr_sort,
                      is_z3, to_z3, as_bool, as_num, compare, scalar_binop, array_binop)
 
 TYPE_ARR = {'bool1': (1, 'bool'), 'int1': (1, 'int'), 'int2': (2, 'int'), 'real1': (1, 'real'), 'cplx1': (1, 'cplx'), 'cplx2': (2, 'cplx'), 'int3': (3, 'int')}
@@ -440,6 +440,22 @@ class FuncVerifier(object):
             return st.alloc(av)
         if t == 'none':
             return None
+        if isinstance(t, dict) and 'seq' in t:      # a list of objects of unknown length: {'seq': {'cls': .., 'fields': {f: 'int' | 'int1'}}}
+            et = t['seq']
+            ln = fresh(name + '_len', I)
+            st.pc.append(ln >= 0)
+            cols = {}
+            for f, ft in et['fields'].items():
+                if ft == 'int':
+                    cols[f] = ('int', fresh('%s.%s' % (name, f), arr_sort(1, 'int')))
+                elif ft == 'int1':
+                    lens = fresh('%s.%s_len' % (name, f), arr_sort(1, 'int'))
+                    k_ = fresh('k', I)
+                    st.pc.append(z3.ForAll([k_], z3.Select(lens, k_) >= 0, patterns=[z3.Select(lens, k_)]))
+                    cols[f] = ('int1', fresh('%s.%s' % (name, f), arr_sort(2, 'int')), lens)
+                else:
+                    raise ContractError('sequence element field type %r' % (ft,))
+            return st.alloc(SymSeq(et['cls'], ln, cols))
         if isinstance(t, dict):      # object: {'cls': 'Pauli', 'fields': {'g': 'int1', 'p': 'int'}}
             fields = {f: self.fresh_value(st, '%s.%s' % (name, f), ft, param) for f, ft in t['fields'].items()}
             return st.alloc(Obj(t['cls'], fields))
@@ -714,6 +730,42 @@ class FuncVerifier(object):
             else:
                 st.heap[base.loc] = AV(const_array(av.ndim, av.elem, as_num(val)), av.shape, av.elem)
             return
+        if isinstance(sl, ast.Call) and isinstance(sl.func, ast.Attribute) and sl.func.attr == 'ix_' and len(sl.args) == 2 and av.ndim == 2 \
+                and all(isinstance(a_, ast.Name) for a_ in sl.args) and isinstance(val, (Ref, View, AV)):
+            # a[numpy.ix_(m1, m2)] = v with two boolean masks: the block of selected rows x selected columns is replaced
+            ms = []
+            for a_ in sl.args:
+                v_ = st.env.get(a_.id)
+                if not (isinstance(v_, Ref) and isinstance(st.heap.get(v_.loc), AV) and st.heap[v_.loc].elem == 'bool' and st.heap[v_.loc].ndim == 1):
+                    raise OutOfFragment('numpy.ix_ with a non-boolean index', node)
+                ms.append(st.heap[v_.loc])
+            src = self.deref(val, st)
+            (i1, c1, p1), (i2, c2, p2) = self.mask_facts(ms[0], st), self.mask_facts(ms[1], st)
+            self.oblige(st, self.site(node, 'shape'), z3.And(ms[0].shape[0] == av.shape[0], ms[1].shape[0] == av.shape[1], src.shape[0] == c1, src.shape[1] == c2)
+                        if src.ndim == 2 else z3.BoolVal(False), node)
+            new = fresh('scatter2', av.term.sort())
+            r_, c_ = fresh('r', I), fresh('c', I)
+            lhs = z3.Select(z3.Select(new, r_), c_)
+            rhs = z3.If(z3.And(z3.Select(ms[0].term, r_) != 0, z3.Select(ms[1].term, c_) != 0),
+                        z3.Select(z3.Select(src.term, z3.Select(p1, r_)), z3.Select(p2, c_)), z3.Select(z3.Select(av.term, r_), c_))
+            st.pc.append(z3.ForAll([r_, c_], z3.Implies(z3.And(0 <= r_, r_ < av.shape[0], 0 <= c_, c_ < av.shape[1]), lhs == rhs), patterns=[lhs]))
+            st.heap[base.loc] = AV(new, av.shape, av.elem)
+            return
+        if isinstance(sl, ast.Name) and av.ndim == 1 and isinstance(val, (Ref, View, AV)):
+            v_ = st.env.get(sl.id)
+            if isinstance(v_, Ref) and isinstance(st.heap.get(v_.loc), AV) and st.heap[v_.loc].elem == 'bool' and st.heap[v_.loc].ndim == 1:
+                # a[m] = v on a 1-D array with a boolean mask
+                m_ = st.heap[v_.loc]
+                src = self.deref(val, st)
+                idx_, cnt_, pos_ = self.mask_facts(m_, st)
+                self.oblige(st, self.site(node, 'shape'), z3.And(m_.shape[0] == av.shape[0], src.shape[0] == cnt_) if src.ndim == 1 else z3.BoolVal(False), node)
+                new = fresh('scatter1', av.term.sort())
+                c_ = fresh('c', I)
+                lhs = z3.Select(new, c_)
+                st.pc.append(z3.ForAll([c_], z3.Implies(z3.And(0 <= c_, c_ < av.shape[0]),
+                                                         lhs == z3.If(z3.Select(m_.term, c_) != 0, z3.Select(src.term, z3.Select(pos_, c_)), z3.Select(av.term, c_))), patterns=[lhs]))
+                st.heap[base.loc] = AV(new, av.shape, av.elem)
+                return
         if isinstance(sl, ast.Slice) and sl.step is None and av.ndim == 1:
             # a[lo:hi] = v on a 1-D array (partial): as a rectangular region
             self.write_region(base, av, ast.Tuple(elts=[sl], ctx=ast.Load()), val, st, node)
@@ -1998,6 +2050,8 @@ class FuncVerifier(object):
             else:
                 raise OutOfFragment('super() form', n)
             return Tag('super', cls, recv)
+        if name == 'all' and len(n.args) == 1 and isinstance(n.args[0], ast.GeneratorExp):
+            return self.all_over_seq(n.args[0], st, n)
         args = [self.pev(a, st) for a in n.args]
         if name == 'set' and len(args) == 1 and isinstance(args[0], (Ref, View)) \
                 and not (isinstance(args[0], Ref) and not isinstance(st.heap[args[0].loc], AV)):
@@ -2025,6 +2079,50 @@ class FuncVerifier(object):
         if name == 'reversed' or name == 'range':
             raise OutOfFragment('%s outside a for header' % name, n)
         raise OutOfFragment('builtin %s' % name, n)
+
+    def all_over_seq(self, ge, st, node):
+        """all(x.m(args) for x in <list of objects of unknown length>): a universally quantified instance of the callee's FUNCTIONAL
+        contract (first ensures of the form  iff(result, E)  /  result == E, no modifies); its requires are an obligation for every
+        element"""
+        if len(ge.generators) != 1 or ge.generators[0].ifs or not isinstance(ge.generators[0].target, ast.Name):
+            raise OutOfFragment('generator expression form', node)
+        seqv = self.pev(ge.generators[0].iter, st)
+        if not (isinstance(seqv, Ref) and isinstance(st.heap.get(seqv.loc), SymSeq)):
+            raise OutOfFragment('all(...) over something that is not a symbolic sequence', node)
+        seq = st.heap[seqv.loc]
+        var = ge.generators[0].target.id
+        call = ge.elt
+        if not (isinstance(call, ast.Call) and isinstance(call.func, ast.Attribute) and isinstance(call.func.value, ast.Name)
+                and call.func.value.id == var and not call.keywords):
+            raise OutOfFragment('all(...) element must be a method call on the loop variable', node)
+        meth = call.func.attr
+        k_ = fresh('k', I)
+        elem_ref = st.alloc(seq.elem(k_))
+        # array-valued fields of the element object must be references
+        eo = st.heap[elem_ref.loc]
+        eo2 = Obj(eo.cls, {f: (st.alloc(v) if isinstance(v, AV) else v) for f, v in eo.fields.items()})
+        st.heap[elem_ref.loc] = eo2
+        args = [self.pev(a, st) for a in call.args]
+        mfile, mcls, mdef = self.find_method(seq.cls, meth)
+        callee = self.select_variant(mfile, mcls, meth, [elem_ref] + args, st)
+        if callee is None or callee.modifies or callee.modifies_scalar or not callee.ensures:
+            raise OutOfFragment('all(...): %s.%s has no pure functional contract' % (seq.cls, meth), node)
+        try:
+            e0 = ast.parse(callee.ensures[0], mode='eval').body
+        except SyntaxError:
+            raise ContractError('bad ensures in %s' % callee.key)
+        if isinstance(e0, ast.Call) and isinstance(e0.func, ast.Name) and e0.func.id == 'iff' and isinstance(e0.args[0], ast.Name) and e0.args[0].id == 'result':
+            body = e0.args[1]
+        elif isinstance(e0, ast.Compare) and isinstance(e0.left, ast.Name) and e0.left.id == 'result' and len(e0.ops) == 1 and isinstance(e0.ops[0], ast.Eq):
+            body = e0.comparators[0]
+        else:
+            raise OutOfFragment('all(...): first ensures of %s is not of the form iff(result, E)' % callee.key, node)
+        env = {p: a for (p, _), a in zip(callee.params, [elem_ref] + args)}
+        sp = SpecEval(self.lib.theory, env, st.heap, env, st.heap, self.lib.preds)
+        rng = z3.And(0 <= k_, k_ < seq.length)
+        if callee.requires:
+            self.oblige(st, 'call:all.%s.pre' % meth, z3.ForAll([k_], z3.Implies(rng, z3.And(*[sp.ev_bool(r) for r in callee.requires]))), node)
+        return z3.ForAll([k_], z3.Implies(rng, as_bool(sp.ev(body))))
 
     def cplx_of(self, v):
         """a complex scalar as a term of the abstract sort Cplx (Python constants become named constants)"""
